@@ -96,6 +96,11 @@ class _Frozen(list):
         pass
 
 
+def _item(r):
+    """items are positive ints; anything else a receiver is handed (a private sentinel, say) is logged as item -1, which nobody sent"""
+    return r if isinstance(r, int) and not isinstance(r, bool) else -1
+
+
 class World:
     """prog: {task: [op, ...]} with op = {"op": send|sendfrom|recv|recvloop|next|iterloop|close|recvto, ...}"""
 
@@ -179,13 +184,13 @@ class World:
             return ("ok", 0)
         if k in ("recv", "recvloop"):
             r = await self.ch.receive()
-            return ("None", 0) if r is None else ("item", r)
+            return ("None", 0) if r is None else ("item", _item(r))
         if k == "recvto":
             r = await asyncio.wait_for(self.ch.receive(), op["timeout"])
-            return ("None", 0) if r is None else ("item", r)
+            return ("None", 0) if r is None else ("item", _item(r))
         if k in ("next", "iterloop"):
             r = await self.ch.__anext__()
-            return ("item", r)
+            return ("item", _item(r))
         if k == "close":
             self.ch.close()
             return ("ok", 0)
